@@ -2,11 +2,14 @@
 //   [1 cap [[data err] ...] [op ...]]   reader script over a scripted source (chunks handed out in order; a chunk
 //        larger than the room is split, its error is delivered with its last byte; afterwards (0, io.EOF) forever)
 //     ops: [1 n] Read  [2] ReadByte  [3] UnreadByte  [4 delim] ReadSlice  [5] ReadLine  [6 n] Peek
-//          [8 delim] ReadBytes  [9] WriteTo(bytes.Buffer)
+//          [8 delim] ReadBytes  [9] WriteTo(bytes.Buffer)  [10] ReadRune  [11] UnreadRune
+//   [3 cap src ops]  same, the source also implements io.WriterTo (writes its remaining chunks up to the first
+//        chunk with an error; io.EOF counts as a clean end)
 //     observation per op: [[ret...] TotalRead pulled Buffered]
 //   [2 cap [[limit err] ...] [op ...]]  writer script over a scripted sink (k-th underlying Write accepts at most
 //        limit bytes and returns err; afterwards accepts everything)
-//     ops: [1 data] Write  [2 c] WriteByte  [3 data] WriteString  [4] Flush  [6 [[data err] ...]] ReadFrom
+//     ops: [1 data] Write  [2 c] WriteByte  [3 data] WriteString  [4] Flush  [6 [[data err] ...]] ReadFrom  [7 r] WriteRune
+//   [4 cap sink ops]  same, the sink also implements io.ReaderFrom (reads the reader to its end, no limits)
 //     observation per op: [[ret...] TotalWrite sunk Buffered]; last element of the output: sink contents
 package main
 
@@ -89,6 +92,27 @@ func (s *scriptReader) Read(p []byte) (int, error) {
 	return n, nil
 }
 
+// scriptReaderWT is a scriptReader that also implements io.WriterTo.
+type scriptReaderWT struct{ *scriptReader }
+
+func (s scriptReaderWT) WriteTo(w io.Writer) (int64, error) {
+	var m int64
+	for len(s.cs) > 0 {
+		c := s.cs[0]
+		s.cs = s.cs[1:]
+		n, _ := w.Write(c.d)
+		m += int64(n)
+		s.pulled += n
+		if c.e == 1 {
+			return m, nil
+		}
+		if c.e != 0 {
+			return m, mkErr(c.e)
+		}
+	}
+	return m, nil
+}
+
 type lim struct{ limit, e int }
 type scriptWriter struct {
 	ls  []lim
@@ -113,6 +137,25 @@ func (s *scriptWriter) Write(p []byte) (int, error) {
 	return k, mkErr(l.e)
 }
 
+// scriptWriterRF is a scriptWriter that also implements io.ReaderFrom.
+type scriptWriterRF struct{ *scriptWriter }
+
+func (s scriptWriterRF) ReadFrom(r io.Reader) (int64, error) {
+	var n int64
+	buf := make([]byte, 32)
+	for {
+		k, err := r.Read(buf)
+		s.out = append(s.out, buf[:k]...)
+		n += int64(k)
+		if err == io.EOF {
+			return n, nil
+		}
+		if err != nil {
+			return n, err
+		}
+	}
+}
+
 func chunks(v hv.Val) []chunk {
 	var cs []chunk
 	for _, c := range hv.AsList(v) {
@@ -122,9 +165,13 @@ func chunks(v hv.Val) []chunk {
 	return cs
 }
 
-func implReader(l hv.L) hv.Val {
+func implReader(l hv.L, wt bool) hv.Val {
 	src := &scriptReader{cs: chunks(l[2])}
-	b := bfe_bufio.NewReaderSize(src, int(hv.AsInt(l[1])))
+	var rd io.Reader = src
+	if wt {
+		rd = scriptReaderWT{src}
+	}
+	b := bfe_bufio.NewReaderSize(rd, int(hv.AsInt(l[1])))
 	out := hv.L{}
 	for _, opv := range hv.AsList(l[3]) {
 		op := hv.AsList(opv)
@@ -155,6 +202,11 @@ func implReader(l hv.L) hv.Val {
 			var w bytes.Buffer
 			n, err := b.WriteTo(&w)
 			ret = hv.L{hv.B(w.Bytes()), hv.Z(n), hv.I(errCode(err))}
+		case 10:
+			r, size, err := b.ReadRune()
+			ret = hv.L{hv.I(int(r)), hv.I(size), hv.I(errCode(err))}
+		case 11:
+			ret = hv.L{hv.I(errCode(b.UnreadRune()))}
 		default:
 			return hv.Err(0)
 		}
@@ -163,13 +215,17 @@ func implReader(l hv.L) hv.Val {
 	return out
 }
 
-func implWriter(l hv.L) hv.Val {
+func implWriter(l hv.L, rf bool) hv.Val {
 	sink := &scriptWriter{}
 	for _, c := range hv.AsList(l[2]) {
 		x := hv.AsList(c)
 		sink.ls = append(sink.ls, lim{int(hv.AsInt(x[0])), int(hv.AsInt(x[1]))})
 	}
-	b := bfe_bufio.NewWriterSize(sink, int(hv.AsInt(l[1])))
+	var wr io.Writer = sink
+	if rf {
+		wr = scriptWriterRF{sink}
+	}
+	b := bfe_bufio.NewWriterSize(wr, int(hv.AsInt(l[1])))
 	out := hv.L{}
 	for _, opv := range hv.AsList(l[3]) {
 		op := hv.AsList(opv)
@@ -188,6 +244,9 @@ func implWriter(l hv.L) hv.Val {
 		case 6:
 			n, err := b.ReadFrom(&scriptReader{cs: chunks(op[1])})
 			ret = hv.L{hv.Z(n), hv.I(errCode(err))}
+		case 7:
+			n, err := b.WriteRune(rune(int32(hv.AsInt(op[1]))))
+			ret = hv.L{hv.I(n), hv.I(errCode(err))}
 		default:
 			return hv.Err(0)
 		}
@@ -201,9 +260,13 @@ func impl(in hv.Val) hv.Val {
 	l := hv.AsList(in)
 	switch hv.AsInt(l[0]) {
 	case 1:
-		return implReader(l)
+		return implReader(l, false)
 	case 2:
-		return implWriter(l)
+		return implWriter(l, false)
+	case 3:
+		return implReader(l, true)
+	case 4:
+		return implWriter(l, true)
 	}
 	return hv.Err(0)
 }
@@ -211,7 +274,14 @@ func impl(in hv.Val) hv.Val {
 // text-like data: letters with line ends, lone CRs, and long runs without LF
 func textBytes(r *hv.Rng, n int) []byte {
 	b := make([]byte, n)
-	mode := r.Intn(4)
+	mode := r.Intn(5)
+	if mode == 3 && r.Bool() {
+		t := []byte("h\u00e9llo \u20ac w\u00f6rld \U0001F600\n\u4e16\u754c\r\n")
+		if n < len(t) {
+			t = t[:n]
+		}
+		return t
+	}
 	for i := range b {
 		switch mode {
 		case 0: // short lines
@@ -220,6 +290,8 @@ func textBytes(r *hv.Rng, n int) []byte {
 			b[i] = "abcdefghijklmnopqrstuvwxy\r\n"[r.Intn(27)]
 		case 2: // many CRs: exercises the CR-at-buffer-end path of ReadLine
 			b[i] = "a\r\r\r\nb"[r.Intn(6)]
+		case 4: // UTF-8 lead and continuation bytes at the range boundaries, ASCII in between
+			b[i] = []byte{'a', '\n', 0x7f, 0x80, 0xbf, 0xc0, 0xc1, 0xc2, 0xdf, 0xe0, 0xa0, 0x9f, 0xed, 0xee, 0xef, 0xf0, 0x90, 0x8f, 0xf4, 0xf5, 0xff, 0xe2, 0x82, 0xac, 0xf0, 0x9f, 0x98, 0x80}[r.Intn(28)]
 		default:
 			b[i] = byte(r.Intn(256))
 		}
@@ -273,7 +345,18 @@ func genReader(r *hv.Rng) (string, hv.Val) {
 			c = []int{4, 5, 6, 7, 8, 0, 13}[r.Intn(7)]
 			class = "rd-unread"
 		}
+		if style == 2 { // rune oriented
+			c = []int{20, 20, 20, 21, 21, 4, 6, 13, 0, 10}[r.Intn(10)]
+			class = "rd-runes"
+		}
+		if style > 2 && r.Chance(1, 8) {
+			c = 20 + r.Intn(2)
+		}
 		switch {
+		case c == 20:
+			ops = append(ops, hv.L{hv.I(10)})
+		case c == 21:
+			ops = append(ops, hv.L{hv.I(11)})
 		case c < 4:
 			n := r.Range(0, 12)
 			switch r.Intn(6) {
@@ -314,7 +397,16 @@ func genReader(r *hv.Rng) (string, hv.Val) {
 			ops = append(ops, hv.L{hv.I(5)})
 		}
 	}
-	return class, hv.L{hv.I(1), hv.I(cap), srcScript(r, true), ops}
+	tag := 1
+	if r.Chance(1, 6) {
+		tag = 3
+		class += "-wt"
+		ops = append(ops, hv.L{hv.I(9)})
+		if r.Bool() {
+			ops = append(ops, hv.L{hv.I(2)}, hv.L{hv.I(9)})
+		}
+	}
+	return class, hv.L{hv.I(tag), hv.I(cap), srcScript(r, true), ops}
 }
 
 func genWriter(r *hv.Rng) (string, hv.Val) {
@@ -361,7 +453,13 @@ func genWriter(r *hv.Rng) (string, hv.Val) {
 		if n < 0 {
 			n = 0
 		}
-		switch c := r.Intn(12); {
+		switch c := r.Intn(14); {
+		case c >= 12:
+			rn := []int{0, 'a', 0x7f, 0x80, 0x7ff, 0x800, 0xd7ff, 0xd800, 0xdfff, 0xe000, 0xffff, 0x10000, 0x10ffff, 0x110000, -1, -200, 0x20ac, 0x1f600}[r.Intn(18)]
+			if r.Chance(1, 4) {
+				rn = r.Intn(0x120000) - 0x800
+			}
+			ops = append(ops, hv.L{hv.I(7), hv.I(rn)})
 		case c < 4:
 			ops = append(ops, hv.L{hv.I(1), hv.B(r.Bytes(n))})
 		case c < 6:
@@ -374,7 +472,12 @@ func genWriter(r *hv.Rng) (string, hv.Val) {
 			ops = append(ops, hv.L{hv.I(6), srcScript(r, true)})
 		}
 	}
-	return class, hv.L{hv.I(2), hv.I(cap), sink, ops}
+	tag := 2
+	if r.Chance(1, 5) {
+		tag = 4
+		class += "-rf"
+	}
+	return class, hv.L{hv.I(tag), hv.I(cap), sink, ops}
 }
 
 func gen(r *hv.Rng, i int, tier string) (string, hv.Val) {
